@@ -84,6 +84,10 @@ def _session_call(kind):
             set_seen = args[2]
             ex.oblige(f'{name}/call:fetch_messages/set_seen_only_when_read_write',
                       z3.Implies(_b(set_seen), z3.Not(ex.st.store[sel.rid]['_readonly'].t)))
+        if kind in ('fetch_messages', 'update_flags', 'search_mailbox', 'expunge_mailbox') and ex.choose(2) == 1:
+            # BaseSession contract: every method that looks the selection's mailbox up (_get_selected) answers
+            # MailboxNotFound when another session has deleted that mailbox meanwhile
+            raise PyRaise(MailboxNotFound)
         if kind in ('update_flags', 'expunge_mailbox'):
             # BaseSession contract: MailboxReadOnly exactly for a read-only selection, before any effect
             ro = ex.st.store[sel.rid]['_readonly']
